@@ -1,8 +1,17 @@
 use std::any::Any;
+#[cfg(not(nexosim_verif))]
 use std::sync::atomic::{self, AtomicUsize, Ordering};
+#[cfg(nexosim_verif)]
+use crate::verif::sync::atomic::{self, AtomicUsize, Ordering};
+#[cfg(not(nexosim_verif))]
 use std::sync::Mutex;
+#[cfg(nexosim_verif)]
+use crate::verif::sync::Mutex;
 
+#[cfg(not(nexosim_verif))]
 use parking::Unparker;
+#[cfg(nexosim_verif)]
+use crate::verif::parking::Unparker;
 
 use super::Stealer;
 use crate::simulation::ModelId;
